@@ -139,8 +139,12 @@ def main():
             todo.append((rel, owners, path, lines, c))
     todo = [t for k, t in enumerate(todo) if k % shard[1] == shard[0]]
     done = set()
-    if os.path.exists(outp):
-        for l in open(outp):
+    import glob
+    # results of earlier sweeps: the output file itself and its siblings (out0.jsonl, out1.jsonl, ... of other shards)
+    for f in set(glob.glob(re.sub(r"\d+(\.\w+)$", r"*\1", outp)) + [outp]):
+        if not os.path.exists(f):
+            continue
+        for l in open(f):
             try:
                 d = json.loads(l); done.add((d["file"], d["line"], d["op"]))
             except Exception:
